@@ -162,15 +162,20 @@ static Token *append(Token *tok1, Token *tok2) {
   return head.next;
 }
 
+// True if `tok` is the '#' of the directive `name`. A '#' alone on a
+// line is a null directive; the next line is not its name.
+static bool is_directive(Token *tok, char *name) {
+  return is_hash(tok) && !tok->next->at_bol && equal(tok->next, name);
+}
+
 static Token *skip_cond_incl2(Token *tok) {
   while (tok->kind != TK_EOF) {
-    if (is_hash(tok) &&
-        (equal(tok->next, "if") || equal(tok->next, "ifdef") ||
-         equal(tok->next, "ifndef"))) {
+    if (is_directive(tok, "if") || is_directive(tok, "ifdef") ||
+        is_directive(tok, "ifndef")) {
       tok = skip_cond_incl2(tok->next->next);
       continue;
     }
-    if (is_hash(tok) && equal(tok->next, "endif"))
+    if (is_directive(tok, "endif"))
       return tok->next->next;
     tok = tok->next;
   }
@@ -181,16 +186,14 @@ static Token *skip_cond_incl2(Token *tok) {
 // Nested `#if` and `#endif` are skipped.
 static Token *skip_cond_incl(Token *tok) {
   while (tok->kind != TK_EOF) {
-    if (is_hash(tok) &&
-        (equal(tok->next, "if") || equal(tok->next, "ifdef") ||
-         equal(tok->next, "ifndef"))) {
+    if (is_directive(tok, "if") || is_directive(tok, "ifdef") ||
+        is_directive(tok, "ifndef")) {
       tok = skip_cond_incl2(tok->next->next);
       continue;
     }
 
-    if (is_hash(tok) &&
-        (equal(tok->next, "elif") || equal(tok->next, "else") ||
-         equal(tok->next, "endif")))
+    if (is_directive(tok, "elif") || is_directive(tok, "else") ||
+        is_directive(tok, "endif"))
       break;
     tok = tok->next;
   }
